@@ -11,6 +11,9 @@ class of the module (inheritance resolved here with a C3 linearisation over the 
                   that ``X == Y`` for every such comparison
 * ``unknown``     fail-closed flag: some syntactic shape was not understood (``unknownWhy`` says
                   which); the decidable soundness predicate is false for such an entry
+* ``hashByValue`` the effective ``_compute_hash`` does not call ``hash_array``, or ``mici.utils.hash_array`` has
+                  exactly the expected shape (real dtypes cast to float64 before hashing the bytes), i.e. array
+                  hashes are functions of the VALUES like ``np.array_equal``
 * ``dunderOk``    the effective ``__eq__`` / ``__hash__`` are ``Matrix``'s and have the expected
                   dispatch shape (``other is self or (same class and self._check_equality(other))``,
                   ``_hash`` memo around ``_compute_hash``)
@@ -35,6 +38,7 @@ import ast
 from pathlib import Path
 
 SRC = "src/mici/matrices.py"
+UTILS = "src/mici/utils.py"
 
 # Hand-written alias map (kept tiny): class that *declares* the alias -> {alias: (target, local)}.
 # `self.<alias> = <local>` and `super().__init__(..., <target>=<local>, ...)` must both occur in that
@@ -57,6 +61,21 @@ def __eq__(self, other):
     return other is self or (
         other.__class__ == self.__class__ and self._check_equality(other)
     )
+"""
+EXPECTED_HASH_ARRAY = """
+def hash_array(array):
+    if array.dtype != np.float64 and (
+        np.issubdtype(array.dtype, np.integer)
+        or np.issubdtype(array.dtype, np.floating)
+        or array.dtype == np.bool_
+    ):
+        array = array.astype(np.float64)
+    if XXHASH_AVAILABLE:
+        h = xxhash.xxh64()
+        h.update(array.view(np.byte).data)
+        h.update(bytes(f"{array.dtype}{array.shape}{array.strides}", "utf-8"))
+        return h.intdigest()
+    return hash(array.tobytes())
 """
 EXPECTED_HASH = """
 def __hash__(self):
@@ -598,8 +617,36 @@ def hand_aliases_for(mro, classes):
 # ---------------------------------------------------------------------------------------------
 
 
+def hash_array_by_value(repo: Path) -> bool:
+    """`mici.utils.hash_array` has exactly the expected shape: real-valued arrays (integer / floating /
+    bool dtype) are cast to float64 before their bytes are hashed, so the hash is a function of the
+    VALUES, as `np.array_equal` is."""
+    try:
+        tree = ast.parse((Path(repo) / UTILS).read_text())
+    except (OSError, SyntaxError):
+        return False
+    fns = [n for n in tree.body if isinstance(n, ast.FunctionDef) and n.name == "hash_array"]
+    return len(fns) == 1 and _same_dump(fns[0], EXPECTED_HASH_ARRAY)
+
+
+def _calls_hash_array(fn) -> bool:
+    return any(isinstance(n, ast.Call) and isinstance(n.func, ast.Name) and n.func.id == "hash_array" for n in ast.walk(fn))
+
+
 def extract(repo: Path) -> list[dict]:
     tree = ast.parse((Path(repo) / SRC).read_text())
+    by_value = hash_array_by_value(Path(repo))
+    # `hash_array` must be the one imported from mici.utils (not rebound in matrices.py)
+    rebound = any(
+        (isinstance(n, ast.FunctionDef | ast.ClassDef) and n.name == "hash_array")
+        or (isinstance(n, ast.Assign) and any(isinstance(t, ast.Name) and t.id == "hash_array" for t in n.targets))
+        for n in ast.walk(tree)
+    )
+    imported = any(
+        isinstance(n, ast.ImportFrom) and n.module == "mici.utils" and any(a.name == "hash_array" and a.asname is None for a in n.names)
+        for n in tree.body
+    )
+    by_value = by_value and imported and not rebound
     classes: dict[str, Cls] = {}
     for st in tree.body:
         if isinstance(st, ast.ClassDef):
@@ -687,6 +734,7 @@ def extract(repo: Path) -> list[dict]:
             "hashFrom": hash_owner or "",
             "eqFrom": ceq_owner or "",
             "dunderOk": dunder_ok,
+            "hashByValue": (not (isinstance(hash_fn, ast.FunctionDef) and _calls_hash_array(hash_fn))) or by_value,
             "hashFields": hash_fields,
             "eqFields": _uniq([a for a, _ in eq_pairs]),
             "eqSameName": all(a == b for a, b in eq_pairs),
@@ -704,7 +752,7 @@ def extract(repo: Path) -> list[dict]:
 def _unknown_entry(name, why):
     return {
         "name": name, "abstract": False, "mro": [name], "hashFrom": "", "eqFrom": "", "dunderOk": False,
-        "hashFields": [], "eqFields": [], "eqSameName": False, "unknown": True, "unknownWhy": why,
+        "hashByValue": False, "hashFields": [], "eqFields": [], "eqSameName": False, "unknown": True, "unknownWhy": why,
         "params": [], "caches": [], "frozen": [], "aliases": [], "handAliases": [],
     }
 
@@ -762,6 +810,7 @@ def render(table) -> str:
             "  { name := " + _s(e["name"]) + ", abstract := " + _b(e["abstract"]) + ",\n"
             "    mro := " + _ls(e["mro"]) + ",\n"
             "    hashFrom := " + _s(e["hashFrom"]) + ", eqFrom := " + _s(e["eqFrom"]) + ", dunderOk := " + _b(e["dunderOk"]) + ",\n"
+            "    hashByValue := " + _b(e["hashByValue"]) + ",\n"
             "    hashFields := " + _ls(e["hashFields"]) + ",\n"
             "    eqFields := " + _ls(e["eqFields"]) + ", eqSameName := " + _b(e["eqSameName"]) + ",\n"
             "    unknown := " + _b(e["unknown"]) + ", unknownWhy := " + _s(e["unknownWhy"]) + ",\n"
